@@ -543,7 +543,7 @@ func lockHeldAt(fn *Fn, n ast.Node, lockField string, mode byte) bool {
 func runC05(c *Ctx) {
 	up := chordFn(c, "LocalNode", "transferKeysUpward")
 	// low = prevPredecessor (param#1) or recv when nil
-	const pLow = "param#1|recv.ID()"
+	const pLow = "param#1.ID()|recv.ID()"
 	const pNew = "param#2.ID()"
 	sites := up.betweenSites()
 	s := checkSite(c, "interval", up, sites, pLow, pNew, pSelf, false, true, "skip the transfer unless the new predecessor lies strictly inside (low, self)")
